@@ -9,6 +9,7 @@ import (
 	"bufio"
 	"encoding/json"
 	"fmt"
+	"hash/fnv"
 	"os"
 	"reflect"
 	"runtime"
@@ -64,6 +65,18 @@ func goid() int64 {
 	return -1
 }
 
+// inLock: the hook points that lie inside a critical section (bus mutexes, indexMux, filtersMu).
+var inLock = map[string]bool{
+	"bus.topics": true, "bus.addTopic.check": true, "bus.addTopic.add": true, "bus.removeTopic": true,
+	"bus.subscribe.check": true, "bus.subscribe.add": true, "bus.unsubscribe": true, "bus.closed.locked": true,
+	"bus.closeAll": true, "bus.delTopic": true, "bus.publish": true,
+	"eventLoop.i.locked": true, "eventLoop.i.unlock": true, "eventLoop.u.locked": true, "eventLoop.u.close": true,
+	"eventLoop.u.unlock": true, "consumeEvents.lookup": true,
+	"api.new.locked": true, "api.new.added": true, "api.new.unlock": true, "api.uf.locked": true, "api.gfc.locked": true,
+	"api.gfc.unlock": true, "consumer.ev": true, "consumer.closed": true, "consumer.err": true,
+	"timeoutLoop.locked": true, "timeoutLoop.expire": true, "timeoutLoop.unlock": true,
+}
+
 type gateKey struct {
 	p int
 	l string
@@ -96,6 +109,11 @@ type Rec struct {
 	Drop func(ev Event) bool
 	// Hook, when set, sees every raw hook call (after it was recorded, without the recorder's lock): scenario steering
 	Hook func(proc, label string, p, sub int)
+	// StallPermille > 0 (free stress only): at hook points that lie INSIDE a critical section the goroutine is held for
+	// 2-10 ms with this probability (decided by seed, hook and occurrence number, so a seed stalls at the same places
+	// again): a lock-order inversion between any two of those locks becomes a stalled run instead of a ns-wide window
+	StallPermille int
+	StallSeed     int64
 	// Sink, when set, receives every event as one JSON line at once (a panic must not lose the trace)
 	Sink *os.File
 }
@@ -159,10 +177,22 @@ func (r *Rec) at(proc, label string, args ...interface{}) {
 	g := goid()
 	r.mu.Lock()
 	r.Counts[proc+"."+label]++
+	var stall time.Duration
+	if r.StallPermille > 0 && inLock[proc+"."+label] {
+		h := fnv.New64a()
+		fmt.Fprintf(h, "%d|%s.%s|%d", r.StallSeed, proc, label, r.Counts[proc+"."+label])
+		x := h.Sum64()
+		if int(x%1000) < r.StallPermille {
+			stall = time.Duration(2000+(x>>20)%8000) * time.Microsecond
+		}
+	}
 	ev, ok := r.resolve(g, proc, label, args)
 	hook := r.Hook
 	if !ok || (r.Drop != nil && r.Drop(ev)) {
 		r.mu.Unlock()
+		if stall > 0 {
+			time.Sleep(stall)
+		}
 		if hook != nil {
 			hook(proc, label, ev.P, ev.Sub)
 		}
@@ -199,6 +229,9 @@ func (r *Rec) at(proc, label string, args ...interface{}) {
 	}
 	if pk != nil {
 		<-pk.release
+	}
+	if stall > 0 {
+		time.Sleep(stall)
 	}
 	if hook != nil {
 		hook(proc, label, ev.P, ev.Sub)
